@@ -5,7 +5,7 @@
    calls, optionally ended by the destructor; every interleaving; spurious wake-ups included).
    The statements are about the model of the REPAIRED AsyncLoop.h (Model.v, variant Repaired);
    the code as found is variant Original and carries the refutation. *)
-From Coq Require Import List Bool.
+From Coq Require Import List Bool ZArith.
 From C03 Require Import Model Proofs.
 
 (* the engine: a computed state list that passes the closure check is an inductive invariant *)
@@ -55,18 +55,43 @@ Theorem dtor_terminates : forall l s,
 Proof. exact dtor_progress_all. Qed.
 Print Assumptions dtor_terminates.
 
-(* THREAD launch: after the destructor's notify the thread function returns within K_dtor steps
-   (so join returns) ... *)
-Theorem dtor_join_returns : forall s,
-  reachable (THREAD, Repaired) s -> cp s = DNot -> loop_reaches Repaired is_done K_dtor s.
-Proof. exact dtor_join_all. Qed.
+(* The constructor's launch-method resolution, for every value n of numTaskingThreads():
+   an explicit THREAD request always owns its thread, an explicit TASK request never does,
+   AUTO owns a thread exactly when the tasking system has at most 4 threads. *)
+Theorem resolve_thread_is_thread : forall n, resolve MThread n = THREAD.
+Proof. exact resolve_thread. Qed.
+Print Assumptions resolve_thread_is_thread.
+Theorem resolve_task_is_task : forall n, resolve MTask n = TASK.
+Proof. exact resolve_task. Qed.
+Print Assumptions resolve_task_is_task.
+Theorem resolve_auto_def : forall n, resolve MAuto n = if (4 <? n)%Z then TASK else THREAD.
+Proof. exact resolve_auto. Qed.
+Print Assumptions resolve_auto_def.
+Theorem resolve_owns_thread_iff : forall m n,
+  resolve m n = THREAD <-> (m = MThread \/ (m = MAuto /\ (n <= 4)%Z)).
+Proof. exact Proofs.resolve_owns_thread_iff. Qed.
+Print Assumptions resolve_owns_thread_iff.
+
+(* "when the loop owns its thread" = the constructor resolved (method m, n tasking threads) to THREAD:
+   after the destructor's notify the thread function returns within K_dtor steps (so join returns) ... *)
+Theorem dtor_join_returns : forall m n s,
+  resolve m n = THREAD -> reachable (resolve m n, Repaired) s -> cp s = DNot ->
+  loop_reaches Repaired is_done K_dtor s.
+Proof. exact dtor_join_resolved. Qed.
 Print Assumptions dtor_join_returns.
 
 (* ... and once the destructor has returned no body invocation is running or can begin *)
-Theorem dtor_safe : forall s,
-  reachable (THREAD, Repaired) s -> dtor_ret s = true -> active s = false /\ lp s = LDone.
-Proof. exact dtor_safe_all. Qed.
+Theorem dtor_safe : forall m n s,
+  resolve m n = THREAD -> reachable (resolve m n, Repaired) s -> dtor_ret s = true ->
+  active s = false /\ lp s = LDone.
+Proof. exact dtor_safe_resolved. Qed.
 Print Assumptions dtor_safe.
+
+(* in particular for an explicit THREAD request, whatever the size of the tasking system *)
+Theorem dtor_safe_explicit_thread : forall n s,
+  reachable (resolve MThread n, Repaired) s -> dtor_ret s = true -> active s = false /\ lp s = LDone.
+Proof. exact Proofs.dtor_safe_explicit_thread. Qed.
+Print Assumptions dtor_safe_explicit_thread.
 
 (* stop() does not spin for ever (body assumed to return): within K_stop = 3 loop steps
    insideLoopBody is false *)
@@ -118,6 +143,10 @@ Example nonvacuous_started_asleep : exists s, reachable (THREAD, Repaired) s /\ 
 Proof. exact nonvac_start_returned_asleep. Qed.
 Example nonvacuous_dtor_returned : exists s, reachable (THREAD, Repaired) s /\ dtor_ret s = true.
 Proof. exact nonvac_dtor_returned. Qed.
+Example resolve_examples :
+  resolve MAuto 0 = THREAD /\ resolve MAuto 4 = THREAD /\ resolve MAuto 5 = TASK /\ resolve MAuto 8 = TASK /\
+  resolve MThread 8 = THREAD /\ resolve MTask 0 = TASK.
+Proof. repeat split. Qed.
 (* the progress bounds are tight *)
 Example K_start_is_tight :
   check (THREAD, Repaired) (fun s => implb (start_ret s) (loop_alone Repaired body_running (pred K_start) s)) = false.
